@@ -1,0 +1,5 @@
+//go:build !verif
+
+package compile
+
+func verifPhase(phase, key string) {}
